@@ -1,6 +1,12 @@
 import LyModel.Base
 import LyModel.Text.Drv
 import LyModel.Lex.Drv
+import LyModel.XmlTree.Drv
+import LyModel.XsdRe.Drv
+import LyModel.Val.Drv
+import LyModel.Path.Drv
+import LyModel.Lyb.Drv
+import LyModel.Conc.Drv
 /-! Dispatch table of the line-protocol driver: one handler per component. -/
 namespace LyModel.Drv
 
@@ -9,6 +15,12 @@ def dispatch (comp op : String) (args : List String) : String :=
   | "echo" => "ok " ++ op ++ " " ++ " ".intercalate args
   | "text" => Text.Drv.handle op args
   | "lex" => Lex.Drv.handle op args
+  | "xmltree" => XmlTree.Drv.handle op args
+  | "xsdre" => XsdRe.Drv.handle op args
+  | "val" => Val.Drv.handle op args
+  | "path" => Path.Drv.handle op args
+  | "lyb" => Lyb.Drv.handle op args
+  | "conc" => Conc.Drv.handle op args
   | _ => "err NoSuchComponent"
 
 end LyModel.Drv
